@@ -17,6 +17,11 @@ class BufWorld(World):
         self.ever_buffered_ops = 0
         self.absent_at_freeze = {}
 
+    def step(self, s):
+        if getattr(self, "dead", False):
+            return False      # the case ended with a reported I/O failure
+        return super().step(s)
+
     # ------------------------------------------------------------------ state
     def roots(self):
         return [i for i, h in enumerate(self.handles) if h.attached and not h.path and h.real is not None]
@@ -156,10 +161,46 @@ class BufWorld(World):
             self.obj_depth[key] -= 1
         else:
             self.cls_depth[key] -= 1
+        fk = s.get("fault_k")
+        faulted = False
+        if fk:
+            from . import sched
+            sched.install_faults()
+            sched.FAULTS.arm(fk, 5)   # EIO at the fk-th file-system call of the flush
         try:
             ctx.__exit__(None, None, None)
         except Exception as e:  # noqa: BLE001
-            raise Mismatch("exit_raised", step=s, error=f"{type(e).__name__}: {str(e)[:200]}")
+            if fk and sched.FAULTS.fired:
+                faulted = True     # a reported I/O failure: legitimate, the data of that file is lost
+            else:
+                if fk:
+                    sched.FAULTS.disarm()
+                raise Mismatch("exit_raised", step=s, error=f"{type(e).__name__}: {str(e)[:200]}")
+        finally:
+            if fk:
+                sched.FAULTS.disarm()
+        if faulted:
+            # The failure was reported to the user. What the collections hold afterwards is not
+            # specified by any property here, so the case ends: all contexts are left (errors of the
+            # aftermath are the user's to handle) and only the buffer's bookkeeping is still judged.
+            self.events["faulted_exit"] += 1
+            from synced_collections.errors import BufferException
+            while self.stack:
+                k2, key2, ctx2 = self.stack.pop()
+                if k2 == "obj":
+                    self.obj_depth[key2] -= 1
+                else:
+                    self.cls_depth[key2] -= 1
+                try:
+                    ctx2.__exit__(None, None, None)
+                except (BufferException, OSError):
+                    pass
+            self.dead = True
+            self.frozen = {}
+            for h in self.handles:
+                h.attached = False
+            self.events["exit_" + kind] += 1
+            return
         self._transitions(before, exiting=True)
         self._check_frozen(step=s)
         self.events["exit_" + kind] += 1
@@ -195,10 +236,13 @@ class BufWorld(World):
 
     def unwind(self):
         while self.stack:
-            self._s_exit({"t": "exit"})
+            if self._s_exit({"t": "exit"}) is False:
+                break
 
     def final_check(self):
         self.unwind()
+        if getattr(self, "dead", False):
+            return     # ended by a reported I/O failure: contents are no longer specified
         super().final_check()
         for i in self.roots():
             cls = type(self.handles[i].real)
